@@ -1,0 +1,40 @@
+//go:build verif
+
+package crl
+
+import (
+	"time"
+
+	"github.com/gr33nbl00d/caddy-revocation-validator/crl/crlrepository"
+)
+
+// VerifRepository exposes the repository to the verification harness.
+func (c *CRLRevocationChecker) VerifRepository() *crlrepository.Repository {
+	return c.crlRepository
+}
+
+// VerifUpdateCRLs runs one refresh pass exactly like a ticker tick (force=false) or a forced background update (force=true).
+func (c *CRLRevocationChecker) VerifUpdateCRLs(force bool) {
+	c.updateCRLs(force)
+}
+
+// VerifSetLastUpdateFinish injects the time at which the last refresh pass is deemed to have finished.
+func (c *CRLRevocationChecker) VerifSetLastUpdateFinish(t time.Time) {
+	crlUpdateMutex.Lock()
+	defer crlUpdateMutex.Unlock()
+	lastCrlUpdateFinishTime = t
+}
+
+// VerifLastUpdateFinish reads the refresh-finish timestamp consulted by this checker.
+func (c *CRLRevocationChecker) VerifLastUpdateFinish() time.Time {
+	crlUpdateMutex.Lock()
+	defer crlUpdateMutex.Unlock()
+	return lastCrlUpdateFinishTime
+}
+
+// VerifWorkDirRegistered reports whether dir is currently registered as in use.
+func VerifWorkDirRegistered(dir string) bool {
+	workDirInUseMutex.Lock()
+	defer workDirInUseMutex.Unlock()
+	return workDirsInUse[dir] == 1
+}
